@@ -13,40 +13,40 @@ are arbitrary functions of the node data. -/
 namespace C14
 open Vol Trav Gen.Algo RefineVolume RefineTravFront
 
-variable (volSphere : Int → ℝ) (volFrustum : Int × Int → ℝ) (volSF : Int → Int × Int → ℝ) (volPairs : Int → List (Int × Int) → ℝ) (volMC : ℝ)
+variable (volSphere : Int → ℝ) (volFrustum : Int × Int → ℝ) (volSF : Int → Int × Int → ℝ) (volPairs : Int → List (Int × Int) → ℝ) (mcScene : List Py.Shape → ℝ)
 
 /-- **generated = the hand-written model `Model/Volume.lean`**: for every table whose subtree at node 0 is `r` (rows = nodes), every accuracy
 level other than 10 (Monte Carlo only) and every sufficient fuel, the translated `_get_volume_frustum_cone` returns what `Vol.treeVolume`
 (C04's step machine with the model's `leave`) computes from the same primitive volumes -/
 theorem generated_volume_eq_model (acc : Nat) (hacc : acc ≠ 10) (ids pids : List Int) (r : Rose) (h : Represents r ids pids) (h0 : r.id = 0)
     (hok : Rows r ids) (F : Nat) :
-    get_volume_frustum_cone volSphere volFrustum volSF volPairs volMC (2 * r.size + F + 1) ids pids (acc : Int)
+    get_volume_frustum_cone volSphere volFrustum volSF volPairs mcScene (2 * r.size + F + 1) ids pids (acc : Int)
       = some (treeVolume acc (terms volSphere volFrustum volSF volPairs) ids pids r.id (2 * r.size)) := by
-  rw [getVolume_refines volSphere volFrustum volSF volPairs volMC acc hacc ids pids r h h0 hok F, tree_volume_eq_sum acc _ ids pids r h]
+  rw [getVolume_refines volSphere volFrustum volSF volPairs mcScene acc hacc ids pids r h h0 hok F, tree_volume_eq_sum acc _ ids pids r h]
 
 /-- **level 1 for the translated function, every tree**: the sum of the node spheres -/
 theorem generated_level1_every_tree (ids pids : List Int) (r : Rose) (h : Represents r ids pids) (h0 : r.id = 0) (hok : Rows r ids) (F : Nat) :
-    get_volume_frustum_cone volSphere volFrustum volSF volPairs volMC (2 * r.size + F + 1) ids pids 1
+    get_volume_frustum_cone volSphere volFrustum volSF volPairs mcScene (2 * r.size + F + 1) ids pids 1
       = some (sumRose (fun i _ => volSphere i) r) := by
-  have := generated_volume_eq_model volSphere volFrustum volSF volPairs volMC 1 (by decide) ids pids r h h0 hok F
+  have := generated_volume_eq_model volSphere volFrustum volSF volPairs mcScene 1 (by decide) ids pids r h h0 hok F
   rw [level1_every_tree _ _ _ _ h] at this
   exact this
 
 /-- **level 2 for the translated function, every tree**: node spheres plus the frusta to the children -/
 theorem generated_level2_every_tree (ids pids : List Int) (r : Rose) (h : Represents r ids pids) (h0 : r.id = 0) (hok : Rows r ids) (F : Nat) :
-    get_volume_frustum_cone volSphere volFrustum volSF volPairs volMC (2 * r.size + F + 1) ids pids 2
+    get_volume_frustum_cone volSphere volFrustum volSF volPairs mcScene (2 * r.size + F + 1) ids pids 2
       = some (sumRose (fun i ks => volSphere i + Py.sumNum (ks.map fun c => volFrustum (i, c))) r) := by
-  have := generated_volume_eq_model volSphere volFrustum volSF volPairs volMC 2 (by decide) ids pids r h h0 hok F
+  have := generated_volume_eq_model volSphere volFrustum volSF volPairs mcScene 2 (by decide) ids pids r h h0 hok F
   rw [level2_every_tree _ _ _ _ h] at this
   exact this
 
 /-- **levels 3 and 4 for the translated function, every tree**: spheres + frusta − (parent sphere ∩ frustum) − (child sphere ∩ frustum) -/
 theorem generated_level3_every_tree (acc : Nat) (h3 : 3 ≤ acc) (h5 : acc < 5) (ids pids : List Int) (r : Rose) (h : Represents r ids pids)
     (h0 : r.id = 0) (hok : Rows r ids) (F : Nat) :
-    get_volume_frustum_cone volSphere volFrustum volSF volPairs volMC (2 * r.size + F + 1) ids pids (acc : Int)
+    get_volume_frustum_cone volSphere volFrustum volSF volPairs mcScene (2 * r.size + F + 1) ids pids (acc : Int)
       = some (sumRose (fun i ks => volSphere i + Py.sumNum (ks.map fun c => volFrustum (i, c))
           - Py.sumNum (ks.map fun c => volSF i (i, c)) - Py.sumNum (ks.map fun c => volSF c (i, c))) r) := by
-  have := generated_volume_eq_model volSphere volFrustum volSF volPairs volMC acc (by omega) ids pids r h h0 hok F
+  have := generated_volume_eq_model volSphere volFrustum volSF volPairs mcScene acc (by omega) ids pids r h h0 hok F
   rw [level3_every_tree acc h3 h5 _ _ _ _ h] at this
   exact this
 
@@ -54,7 +54,7 @@ theorem generated_level3_every_tree (acc : Nat) (h3 : 3 ≤ acc) (h5 : acc < 5) 
 translated function reports the sum over `r` at every analytic level — the hypotheses above are not a restriction -/
 theorem generated_volume_every_tree (pids : List Int) (hw : C07.WF pids) :
     ∃ r : Rose, C06.IsTree r pids ∧ ∀ (acc : Nat), acc ≠ 10 → ∀ (F : Nat),
-      get_volume_frustum_cone volSphere volFrustum volSF volPairs volMC (2 * r.size + F + 1) (Sub.rangeI pids.length) pids (acc : Int)
+      get_volume_frustum_cone volSphere volFrustum volSF volPairs mcScene (2 * r.size + F + 1) (Sub.rangeI pids.length) pids (acc : Int)
         = some (sumRose (fun i ks => nodeVal acc (terms volSphere volFrustum volSF volPairs i ks)) r) := by
   obtain ⟨r, hr⟩ := Represent.wf_represented pids hw
   refine ⟨r, hr, ?_⟩
@@ -64,12 +64,12 @@ theorem generated_volume_every_tree (pids : List Int) (hw : C07.WF pids) :
     have := (C06.isTree_mem hr j).1 hj
     simp only [Sub.rangeI, List.length_map, List.length_range]
     omega
-  exact getVolume_refines volSphere volFrustum volSF volPairs volMC acc hacc _ pids r hr.1 hr.2.2.1 hok F
+  exact getVolume_refines volSphere volFrustum volSF volPairs mcScene acc hacc _ pids r hr.1 hr.2.2.1 hok F
 
 /-- non-vacuity: the translated function, kernel-evaluated at `K = Int` on the table of `C04.lean` (root 0 with the children 2, 3; node 3 with 1, 4)
 with primitive volumes that encode which object they belong to: levels 1, 2, 3, 5 and 10 -/
 example : ([1, 2, 3, 5, 10].map fun acc => get_volume_frustum_cone (K := Int) (fun i => 1000 + i) (fun f => 100 * f.1 + 10 * f.2)
-      (fun s f => s + f.2) (fun s cs => 7 * cs.length) 424242 11 C04.exIds C04.exPids acc)
+      (fun s f => s + f.2) (fun s cs => 7 * cs.length) (fun _ => 424242) 11 C04.exIds C04.exPids acc)
     = [some 5010, some 5710, some 5674, some 5646, some 424242] := by
   decide +kernel
 
